@@ -74,12 +74,19 @@ func ZZ_C12_Expiry() {
 		}
 		return
 	}
-	// the entry must still be alive at t1 for the hooks below to apply
 	t1 := zzTime("t1")
 	vAssume(t1 >= t0)
-	vAssume(zzAddOK(t0, dC) && t1 < t0+int64(dC))
+	vAssume(zzAddOK(t0, dC))
 	env.clk.now = t1
 	vAssume(probe >= t1)
+	if op == 1 && t1 >= t0+int64(dC) {
+		// a write over an entry whose deadline has been reached (expired, not swept) is a creation
+		c.Set(1, 11)
+		zzCheckDeadline(env, 1, t1, dC, probe, "c12.write_over_expired_is_a_create")
+		return
+	}
+	// the entry must still be alive at t1 for the hooks below to apply
+	vAssume(t1 < t0+int64(dC))
 	switch op {
 	case 1:
 		c.Set(1, 11)
